@@ -19,6 +19,7 @@ package simrt
 import (
 	"iter"
 	"reflect"
+	"time"
 	"unsafe"
 )
 
@@ -335,6 +336,10 @@ func RecvVia[T any](ch <-chan T, site string) <-chan T {
 				return tmp
 			default:
 			}
+			if freeRunning.Load() > 0 {
+				time.Sleep(20 * time.Microsecond) // goroutines of the code under test are running for real: wait for them, not for a timer
+				continue
+			}
 			if !IdleHook() {
 				break
 			}
@@ -599,6 +604,10 @@ func realSelect(hasDefault bool, cases []SelCase) *Sel {
 		for {
 			if s := realSelect(true, cases); s.Index >= 0 {
 				return s
+			}
+			if freeRunning.Load() > 0 {
+				time.Sleep(20 * time.Microsecond)
+				continue
 			}
 			if !IdleHook() {
 				break
